@@ -80,7 +80,7 @@ def run_episode(tracer, d, cfg, policy, max_steps=400, env_hook=None, seed=None)
 
 
 def run_batch(seed, n, profiles=("mixed",), ps=(0.1, 0.5, 0.9, 1.0), tracer=None, custom_buffers_p=0.0,
-              trunc_p=0.3, env_hook=None, max_steps=400, gen_kw=None, phased_p=0.0, early_p=0.6):
+              trunc_p=0.3, env_hook=None, max_steps=400, gen_kw=None, phased_p=0.0, early_p=0.6, big_p=0.0):
     rng = random.Random(seed)
     tracer = tracer or trace.Tracer()
     tracer.want_pre = True
@@ -88,8 +88,12 @@ def run_batch(seed, n, profiles=("mixed",), ps=(0.1, 0.5, 0.9, 1.0), tracer=None
     eps = []
     for k in range(n):
         prof = profiles[k % len(profiles)]
-        d, feats = gen.gen_instance(rng, prof, **(gen_kw or {}))
-        if custom_buffers_p and "logistics" in d["instance_config"] and rng.random() < custom_buffers_p:
+        kw = dict(gen_kw or {})
+        if big_p and prof not in ("race", "zerotravel") and rng.random() < big_p:
+            kw.update(nj=rng.randint(5, 7), nm=rng.randint(3, 5))
+        d, feats = gen.gen_instance(rng, prof, **kw)
+        if custom_buffers_p and "logistics" in d["instance_config"] and "buffer" not in d["instance_config"] \
+                and rng.random() < custom_buffers_p:
             gen.gen_custom_buffers(rng, d, feats["nj"])
             feats["custom_buffers"] = True
         early = rng.random() < early_p
